@@ -2383,14 +2383,21 @@ class LazyStackedTensorDict(TensorDictBase):
                             result.append(self.tensordicts[i][_idx])
                             result[-1] = result[-1].squeeze(cat_dim)
                 if not result:
-                    batch_size = _getitem_batch_size(self.batch_size, index)
+                    # no member is selected: `batch_size` is the batch size of the
+                    # (absent) members, ie the indexed batch size without the stack dim
+                    if not isinstance(index, tuple):
+                        index = (index,)
+                    index = convert_ellipsis_to_idx(index, self.batch_size)
+                    batch_size = list(_getitem_batch_size(self.batch_size, index))
+                    batch_size.pop(cat_dim)
                 else:
                     batch_size = None
                 return self._new_lazy_unsafe(
                     *result,
                     stack_dim=cat_dim,
                     device=self.device,
-                    names=self.names,
+                    # names are only read to build the placeholder of an empty stack
+                    names=None,
                     batch_size=batch_size,
                 )
             else:
